@@ -180,6 +180,12 @@ func c02Numbers(c *Ctx, r *rng.R, i int) {
 			if op == "OEq" || op == "ONe" {
 				break // equality of numbers follows the shortest-decimal rule: C03
 			}
+			if op == "OLe" || op == "OGe" {
+				// "or equal" is the library's equality (C03's shortest-decimal rule), joined to the exact strict order
+				if eq, pe, _ := runOp("OEq", []cty.Value{a, b}); !pe && eq.IsKnown() && eq.True() {
+					want = true
+				}
+			}
 			if ret.Type() != cty.Bool || ret.True() != want {
 				c.Fail("C02/comparison", fmt.Sprintf("%s(%s, %s) = %s", op, cq.Show(a), cq.Show(b), cq.Show(ret)), desc)
 			}
